@@ -312,8 +312,7 @@ func unKey(k interface{}) int {
 	case int64:
 		return int(x)
 	}
-	tr.Fatal("foreign key %v in cache", k)
-	return 0
+	return -7 // a key nobody stored: an observation the spec cannot explain, not a harness fault
 }
 
 func newLRU(sized bool, capa, kind int) lru {
@@ -630,22 +629,26 @@ func runRaces(w *tr.W, rng *rand.Rand, rounds, keep, bulk int) (int, int) {
 func runWide(w *tr.W, rng *rand.Rand, variant string, shards, capa, nops int) {
 	var sizedF cache.LRUFacade
 	var tinyF tiny.LRU
-	rm := remap.NewReMap(remap.WithPrime(uint64(shards)))
+	var opts []remap.Option
+	if shards > 0 { // 0 = no option: the constructors' default shard count
+		opts = append(opts, opts...)
+	}
+	rm := remap.NewReMap(opts...)
 	var idx func(interface{}) int
 	sized := true
 	switch variant {
 	case "wide":
-		sizedF = cache.NeWideLRUCache(int64(capa), remap.WithPrime(uint64(shards)))
+		sizedF = cache.NeWideLRUCache(int64(capa), opts...)
 		idx = rm.SimpleIndex
 	case "widex":
-		sizedF = cache.NewWideXHashLRUCache(int64(capa), remap.WithPrime(uint64(shards)))
+		sizedF = cache.NewWideXHashLRUCache(int64(capa), opts...)
 		idx = rm.XHashIndex
 	case "tinywide":
-		tinyF = tiny.NeWideLRU(int64(capa), remap.WithPrime(uint64(shards)))
+		tinyF = tiny.NeWideLRU(int64(capa), opts...)
 		idx = rm.SimpleIndex
 		sized = false
 	case "tinywidex":
-		tinyF = tiny.NewWideXHashLRU(int64(capa), remap.WithPrime(uint64(shards)))
+		tinyF = tiny.NewWideXHashLRU(int64(capa), opts...)
 		idx = rm.XHashIndex
 		sized = false
 	}
@@ -928,7 +931,7 @@ func main() {
 	}
 	for i := 0; i < *nwide; i++ {
 		variants := []string{"wide", "widex", "tinywide", "tinywidex"}
-		shards := []int{1, 2, 3, 7, 13}[rng.Intn(5)]
+		shards := []int{1, 2, 3, 7, 13, 0, 73}[rng.Intn(7)]
 		runWide(w, rng, variants[i%4], shards, rng.Intn(20), rng.Intn(*maxops*2)+20)
 	}
 	w.Close()
